@@ -1,11 +1,15 @@
 """Fault seams, applied from outside the package under test, in child processes only.
 
  * IOFaults: wrapper over builtins.open / io.open, active only while a load runs.
-   Counts opens of paths under the simulated root; a directive selects one open
-   (by ordinal or by path + occurrence) and either raises OSError(errno) or opens a
-   faulted COPY of the file (torn / one byte flipped) with the caller's own arguments.
- * Interrupt: sys.settrace line events inside the hand-written blackbird modules;
-   the k-th such event raises MemoryError / KeyboardInterrupt into the running frame.
+   Logs opens of paths under the simulated root; a directive names one file (every open of
+   it during the load) and either raises OSError(errno) or hands out a stream with one
+   short read.  Torn / flipped content is NOT done here: child.do_load writes it to the
+   real path for the duration of the load (so stat, mmap, os.open and pathlib agree with
+   open) and restores the original afterwards.  (The copy-based tear/flip branch below is
+   only reachable for directives addressed by ordinal, which no generator emits any more.)
+ * Interrupt: sys.settrace line events inside the package's own modules; the k-th eligible
+   event raises MemoryError / KeyboardInterrupt into the running frame, or (action
+   "collect") runs the cycle collector at that line.
 """
 import builtins
 import errno
@@ -249,6 +253,11 @@ def line_info(filename):
                     protected.update(range(h.lineno, (h.end_lineno or h.lineno) + 1))
                 for st in node.finalbody:
                     protected.update(range(st.lineno, (st.end_lineno or st.lineno) + 1))
+                if node.handlers:
+                    # `try: work() except ...: undo(); raise  else: undo()` - the success-path
+                    # twin of a handler is cleanup as well
+                    for st in node.orelse:
+                        protected.update(range(st.lineno, (st.end_lineno or st.lineno) + 1))
             if isinstance(node, ast.With):
                 # the header of a with statement: __enter__/__exit__ bookkeeping
                 protected.add(node.lineno)
